@@ -22,7 +22,7 @@ let () =
   let hist_meta = ref "" in
   let step_no = ref 0 in
   let pre_lines = ref [] and cur_st = ref [] in
-  let cur_op = ref None and orc = ref [] and res = ref ("", "") and xs = ref [] and hs = ref [] and gen = ref "" and fault = ref false and qr = ref [] and indep = ref "" in
+  let cur_op = ref None and orc = ref [] and res = ref ("", "") and xs = ref [] and hs = ref [] and gen = ref "" and fault = ref false and qr = ref [] and indep = ref "" and qpage = ref "" in
   let mismatches = ref 0 and checkfails = ref 0 in
   let report_mismatch proj m i =
     incr mismatches;
@@ -47,6 +47,13 @@ let () =
              | Some (key, m, i) ->
                  incr checkfails;
                  Printf.printf "CHECK hist=%s step=%d prop=C16 checker=query op=[%s] detail=[%s model=(%s) impl=(%s)] %s\n" !hist !step_no op_line key m i !hist_meta);
+            if !qpage <> "" then begin
+              bump "paged_listings";
+              if starts_with "QPAGE same=0" !qpage then begin
+                incr checkfails;
+                Printf.printf "CHECK hist=%s step=%d prop=C16 checker=query_pagination op=[%s] detail=[paging through the listing does not give the unpaginated answer or the reported total is wrong: %s] %s\n" !hist !step_no op_line !qpage !hist_meta
+              end
+            end;
             Printf.printf "TAGS hist=%s step=%d query\n" !hist !step_no;
             (* a query must not change anything *)
             if List.sort compare !pre_lines <> List.sort compare (List.rev !cur_st) then
@@ -123,7 +130,7 @@ let () =
         end
       end
       else if starts_with "OP " l then begin
-        cur_op := Some l; orc := []; res := ("", ""); xs := []; hs := []; gen := ""; fault := false; qr := []; indep := ""
+        cur_op := Some l; orc := []; res := ("", ""); xs := []; hs := []; gen := ""; fault := false; qr := []; indep := ""; qpage := ""
       end
       else if starts_with "ORC " l then orc := parse_orc l :: !orc
       else if starts_with "RES " l then begin
@@ -137,6 +144,7 @@ let () =
       else if starts_with "FAULT " l then fault := true
       else if starts_with "QR " l then qr := l :: !qr
       else if starts_with "INDEP " l then indep := l
+      else if starts_with "QPAGE " l then qpage := l
       else if l = "END" then begin
         process ();
         if !cur_op <> None then incr step_no;
